@@ -124,6 +124,9 @@ mod types {
 		pub struct SingleCompact { #[codec(compact)] pub x: u32 }
 		pub struct SingleCompact16(#[codec(compact)] pub u16);
 		pub struct AllSkip { #[codec(skip)] pub a: u32, #[codec(skip)] pub b: Option<u8> }
+		// zero-sized in memory, one byte on the wire (and two for the pair): "nothing to store" is not "nothing to read"
+		pub enum Marker { #[codec(index = 7)] Only }
+		pub struct MarkerPair(pub Marker, pub Marker);
 		pub enum Simple { A, B, C }
 		pub enum Indexed { #[codec(index = 15)] A, #[codec(skip)] B, C = 3, D, #[codec(index = 255)] Z, #[codec(index = 0)] Zero }
 		#[repr(u8)]
@@ -187,6 +190,8 @@ mod types {
 	model_type!(struct SingleCompact { x: u32 = compact });
 	model_type!(struct SingleCompact16 { 0: u16 = compact });
 	model_type!(struct AllSkip { a: u32 = skip, b: Option<u8> = skip });
+	model_type!(enum Marker { Only = [7] {} });
+	model_type!(struct MarkerPair { 0: Marker = plain, 1: Marker = plain });
 	model_type!(enum Simple { A = [0] {}, B = [1] {}, C = [2] {} });
 	model_type!(enum Indexed { A = [15] {}, B = skip {}, C = [3] {}, D = [2] {}, Z = [255] {}, Zero = [0] {} });
 	model_type!(enum Discr { A = [1] {}, B = [5] {}, C = [200] {} });
